@@ -186,6 +186,7 @@ func runC12(c *core.Ctx) {
 	c.Rule("R9", "the requested size is never an operand of integer +, * or <<: every size up to math.MaxInt is a legal request and must not wrap", 3)
 	c.Rule("R10", "a cached look-back shard is reused only for windows starting at or after the window it was computed for (shared with C13.R6)", 2)
 	c.Rule("R12", "the token lists the shard walk searches are merged from sorted per-instance lists, whatever order the descriptor holds them in (shared with C14.R5)", 4)
+	c.Rule("R13", "a cached shard is found and stored under the request's own identifier, size and look-back period: two requests that can have different shards never share a cache entry (shared with C13.R4)", 8)
 	c.Rule("R5", "out-of-range partition shard size falls back to the number of all partitions", 1)
 	pkg := c.Prog.Pkg("ring")
 	sp := c.Prog.Pkg("ring/shard")
@@ -304,6 +305,7 @@ func runC12(c *core.Ctx) {
 	c13WindowCheck(c, pkg, "R10")
 	c05Snapshot(c, pkg, "R11")
 	c.As("R5", "R12", func() { c14SortedInputs(c, pkg) })
+	c.As("R4", "R13", func() { c13EntryArgs(c, pkg) })
 	// ---- R9: no wrapping arithmetic on the requested size
 	for _, e := range []struct {
 		pkg  *packages.Package
